@@ -56,7 +56,7 @@ CHECKS = {
    "process kill is not power loss; strace when=N counts per thread (coverage = recorded disk states)", "DESIGN.md 4 C15"),
  "C17": T("fault_enumeration", "tamper enumeration on the real backend files (every byte position x masks, every truncation, extensions, block swaps, multi-byte edits) with Get as the oracle; plaintext-window / nonce / ciphertext-equality scan of every file written through every configuration path, also under overlapping writers (race detector on); unusable keys x configuration paths; tampering under a real transport",
    "A tampered file that yields data, plaintext or a repeated nonce on disk, a wrong key yielding data, or an open without a usable key is a violation.",
-   "whole-file replacement by another key's file is outside the statement", "DESIGN.md 4 C17"),
+   "tampering is judged through Get only", "DESIGN.md 4 C17"),
  "C19": T("exploration", RM + "footprint monitor on the recording store: a finite request alphabet repeated 4*U*(1+H*V) rounds against origins using Vary ('*', alternating sets), validation, background refresh and unsuccessful POSTs; key count and index sizes compared with explicit bounds at R/4, R/2, R; emptiness after invalidation",
    "Exceeding U*(1+H*V) keys or H*V index records, or keys left after a successful unsafe request on a store holding only the target's keys, is a violation.",
    "a leak slower than one record per round would need more rounds", "DESIGN.md 4 C19"),
